@@ -12,7 +12,10 @@ use discret::verif_hooks::security::SigningKey;
 use discret::verif_hooks::database::room_node::{
     AuthorisationNode, EntityRightNode, RoomNode, UserNode,
 };
+use discret::verif_hooks::discret::DiscretServices;
 use discret::verif_hooks::event_service::EventService;
+use discret::verif_hooks::synchronisation::peer_inbound_service::{LocalPeerService, QueryService};
+use discret::verif_hooks::synchronisation::{Answer, Query, QueryProtocol};
 use discret::verif_hooks::security::Uid;
 use discret::verif_hooks::signature_verification_service::SignatureVerificationService;
 use dvcommon::{join, parse_kv, Stats};
@@ -540,7 +543,7 @@ impl Case {
                 if let Some(id) = mk::un_uid(&n.id) {
                     if self.sys_ids.contains(&id) {
                         if let Some(r) = t.nodes.iter().find(|r| r[0] == id as i64) {
-                            if r[2] >= 100 && r[6] == 0 && r[4] == *ad {
+                            if r[2] >= 100 && r[4] == *ad {
                                 return "bad-op".into();
                             }
                         }
@@ -550,6 +553,79 @@ impl Case {
         }
         let res = self.sync_inner(sigsvc, room_id, p, stats).await;
         format!("sync {} {}", res, self.dump(keys).await)
+    }
+
+    /// the REAL `LocalPeerService::synchronise_day`: the harness is the remote peer and answers its
+    /// queries over in-memory channels with the pending records (whatever was asked for)
+    async fn sync_real(&mut self, keys: &Keys, sigsvc: &SignatureVerificationService, room: u64) -> String {
+        let p = std::mem::take(&mut self.pending);
+        {
+            let t = self.tables(keys).await;
+            for (n, ad, _) in &p.nodes {
+                if let Some(id) = mk::un_uid(&n.id) {
+                    if self.sys_ids.contains(&id) {
+                        if let Some(r) = t.nodes.iter().find(|r| r[0] == id as i64) {
+                            if r[2] >= 100 && r[4] == *ad {
+                                return "bad-op".into();
+                            }
+                        }
+                    }
+                }
+            }
+        }
+        let (q_tx, mut q_rx) = tokio::sync::mpsc::channel::<QueryProtocol>(16);
+        let (a_tx, a_rx) = tokio::sync::mpsc::channel::<Answer>(16);
+        let qs = QueryService::start(q_tx, a_rx);
+        let responder = tokio::spawn(async move {
+            let ser = |id: u64, data: Vec<u8>| Answer { id, success: true, complete: false, serialized: data };
+            while let Some(qp) = q_rx.recv().await {
+                let id = qp.id;
+                let data: Option<Vec<u8>> = match qp.query {
+                    Query::EdgeDeletionLog(..) => {
+                        if p.edels.is_empty() { None } else { Some(bincode::serialize(&p.edels).unwrap()) }
+                    }
+                    Query::NodeDeletionLog(..) => {
+                        if p.ndels.is_empty() { None } else { Some(bincode::serialize(&p.ndels).unwrap()) }
+                    }
+                    Query::RoomDailyNodes(..) => {
+                        let mut set: HashSet<NodeIdentifier> = HashSet::new();
+                        for (n, ad, asig) in &p.nodes {
+                            set.insert(NodeIdentifier { id: n.id, mdate: *ad, signature: asig.clone() });
+                        }
+                        if set.is_empty() { None } else { Some(bincode::serialize(&set).unwrap()) }
+                    }
+                    Query::Nodes(..) => {
+                        let v: Vec<&Node> = p.nodes.iter().map(|x| &x.0).collect();
+                        if v.is_empty() { None } else { Some(bincode::serialize(&v).unwrap()) }
+                    }
+                    Query::Edges(..) => {
+                        if p.edges.is_empty() { None } else { Some(bincode::serialize(&p.edges).unwrap()) }
+                    }
+                    _ => None,
+                };
+                if let Some(d) = data {
+                    if a_tx.send(ser(id, d)).await.is_err() {
+                        break;
+                    }
+                }
+                if a_tx.send(Answer { id, success: true, complete: true, serialized: vec![] }).await.is_err() {
+                    break;
+                }
+            }
+        });
+        let services = DiscretServices {
+            events: EventService::new(),
+            database: self.app.clone(),
+            signature_verification: sigsvc.clone(),
+        };
+        let res = LocalPeerService::verif_synchronise_day(mk::uid(room), "0".to_string(), 0, &qs, &services).await;
+        drop(qs);
+        responder.abort();
+        let cls = match res {
+            Ok(_) => "ok",
+            Err(_) => "err",
+        };
+        format!("rsync res={} {}", cls, self.dump(keys).await)
     }
 
     async fn sync_inner(
@@ -1054,6 +1130,14 @@ async fn step(
                     None => "bad-op".into(),
                 }
             }
+            "rsync" => match get_u(&kv, "r") {
+                Some(r) => {
+                    let o = c.sync_real(keys, sigsvc, r).await;
+                    stats.inc(&format!("rsync.{}", o.split_whitespace().nth(1).unwrap_or("bad-op")));
+                    o
+                }
+                None => "bad-op".into(),
+            },
             "sync" => {
                 match get_u(&kv, "r") {
                     Some(r) => {
